@@ -186,6 +186,12 @@ def duration_cases():
     out.append({"k": "dur", "kw": {"days": 400, "hours": 25}})
     out.append({"k": "dur", "kw": {"weeks": 1}})
     out.append({"k": "dur", "kw": {"years": 1, "months": 1, "weeks": 1, "days": 1}})
+    # lengths of centuries that carry microseconds (beyond the float-exact range of seconds), up to timedelta's limits
+    for kw in ({"days": 300000, "seconds": 5, "microseconds": 1}, {"days": 300000, "seconds": 5, "microseconds": 3},
+               {"days": -450000, "seconds": -7, "microseconds": -999999}, {"days": 999999999, "hours": 23, "minutes": 59, "seconds": 59, "microseconds": 999999},
+               {"days": -999999999}, {"years": 100, "months": 7, "days": 60000, "microseconds": 1}, {"days": 49711, "microseconds": 3},
+               {"years": -1, "days": 999999999, "microseconds": 1}):
+        out.append({"k": "dur", "kw": kw})
     return out
 
 
